@@ -29,7 +29,8 @@ fn name_text(n: &Value) -> String {
 
 fn constraint_desc(c: &Value) -> Value {
 	if sval(c, "v") == "dns" {
-		json!({"v": "dns", "val": hex(name_text(c).as_bytes()), "b": [], "dn": [], "prefix": {"k": "none", "n": 0}, "mask": []})
+		let text = if c["dot"].as_bool().unwrap_or(false) { format!(".{}", name_text(c)) } else { name_text(c) };
+		json!({"v": "dns", "val": hex(text.as_bytes()), "b": [], "dn": [], "prefix": {"k": "none", "n": 0}, "mask": []})
 	} else {
 		json!({"v": "ip", "val": "", "b": c["b"], "dn": [], "prefix": {"k": "some", "n": c["p"]}, "mask": []})
 	}
